@@ -225,6 +225,10 @@ func parseValidator(s string) saltpack.VersionValidator {
 	if s == "any" {
 		return saltpack.CheckKnownMajorVersion
 	}
+	if s == "all" {
+		// an application validator that admits every version (the library leaves the policy to the caller)
+		return func(saltpack.Version) error { return nil }
+	}
 	return saltpack.SingleVersionValidator(parseVersion(strings.TrimPrefix(s, "single:")))
 }
 
